@@ -482,3 +482,43 @@ import json as _json, os as _os
 _req = _json.load(open(_os.path.join(run.LEAN, 'REQUIRED_THEOREMS.json')))
 for _k, _v in PROPS.items():
     _v['theorems'] = _req.get(_k, [])
+
+
+def alloc(case, toks, log, items):
+    return oracles.alloc_oracle(case, toks)
+
+
+def jsonrt(case, toks, log, items):
+    return oracles.json_oracle(case, toks)
+
+
+PROPS['C18'] = dict(
+    theorems=[],
+    runner=ReaderRunner(
+        quick=[('fa_alloc', 400), ('fq_alloc', 400)], thorough=[('fa_alloc', 8000), ('fq_alloc', 8000)],
+        oracle=alloc),
+    rule='files of 12-40 records of one shape, capacities from 3 records to 64 KiB, next() / one reused record set / two alternating '
+         'record sets; a counting global allocator measures every reader call; after a warm-up of four operations every read of a '
+         'record (or of a batch no larger than one seen before) must allocate nothing and make no growth request',
+    assumptions=ASSUME_READER + ['allocation counts are those of the harness build (opt-level 2); Vec growth and the allocator are runtime behaviour, observed not proved'],
+)
+PROPS['C19'] = dict(
+    theorems=[],
+    runner=ReaderRunner(
+        quick=[('fa_json', 3000), ('fq_json', 3000)], thorough=[('fa_json', 60000), ('fq_json', 60000)],
+        oracle=jsonrt),
+    rule='owned records and record sets (fresh, refilled, reused with stale offsets beyond their length, after exact-count reads) '
+         'serialised with serde_json, deserialised and compared record by record; the JSON text is compared byte-exactly with the '
+         "model's rendering of the serde data model",
+    assumptions=ASSUME_READER + ['serde derive expansion and serde_json are observed through the JSON text, not verified'],
+)
+PROPS['C20'] = dict(
+    theorems=[],
+    runner=SimpleRunner(quick=[('iter', 7)], thorough=[('iter', 11)], raw_oracle=oracles.iter_oracle),
+    rule='records with 0-5 sequence lines x every word over {front, back} up to length 7 (thorough: 11) on one seq_lines() iterator, '
+         'len() and size_hint() after every step; enumerate().rev() (also after advancing), rev, zip, skip, collect; record-set '
+         'iterators and owned-record iterators of both formats driven past their end',
+    assumptions=[],
+)
+for _k, _v in PROPS.items():
+    _v['theorems'] = _req.get(_k, [])
